@@ -14,7 +14,7 @@ from ..simpy_model import registration_order, witness
 from .common import call_name, iteration_segments, short
 from .counters import check_coupling
 
-FLOORS = {'C12.M1': 1, 'C12.M2': 1, 'C12.M3': 11, 'C12.M4': 1}
+FLOORS = {'C12.M1': 1, 'C12.M2': 1, 'C12.M3': 11, 'C12.M4': 1, 'C12.M5': 8, 'C12.M6': 10}
 
 U = "Cluster._usage_data['%s']"
 COLUMNS = {
@@ -190,6 +190,48 @@ def check(repo, res, tier):
                                         'the column "%s" reports %s, not %s' % (col, gs, want))
     # M4
     check_coupling(repo, res, 'C12.M4', canon)
+    # M5: taking the snapshot does not disturb the state it reports
+    from .purity import REPORTING, check_pure
+    res.rule('C12.M5', 'the snapshot functions behind a row are side-effect free')
+    check_pure(repo, res, 'C12.M5', REPORTING, 'taking a row would change the state later rows report')
+    # M6: order-model side condition -- only Task.do_work may sleep other than one step
+    res.rule('C12.M6', 'every process except Task.do_work sleeps exactly one timestep at a time, so the monitor '
+                       'stays the first process of every step (SimPy orders equal-time timeouts by creation)')
+    unit_sleepers(repo, res, canon, 'C12.M6')
+
+
+def unit_sleepers(repo, res, canon, rule):
+    n = 0
+    for f in repo.all_functions():
+        if not f.is_generator or f.module.name.startswith(('topsim.utils', 'topsim.recipes')):
+            continue
+        fr = Frame(f)
+        for x in walk_no_nested(f.node):
+            if isinstance(x, ast.Call) and call_name(x) == 'timeout' and x.args:
+                n += 1
+                a = canon.c(x.args[0], fr)
+                if a in ('1', 'TIMESTEP'):
+                    res.ok(rule, f, x, '%s sleeps one step (line %d)' % (f.qual, x.lineno))
+                elif f.qual == 'Task.do_work':
+                    res.ok(rule, f, x, 'Task.do_work sleeps %s (it writes only its own task fields)' % short(a, 50))
+                else:
+                    res.bad(rule, f, x, '%s sleeps %s' % (f.qual, short(a, 60)),
+                            '%s yields a timeout of %s instead of one timestep: its wake-up is queued before '
+                            'the monitor\'s for that instant, so from then on it acts BEFORE the monitor and '
+                            'row t no longer shows the state at the beginning of step t' % (f.qual, short(a, 60)))
+    # do_work must write nothing but its own fields
+    d = repo.func('Task.do_work')
+    dfr = Frame(d)
+    bad = None
+    for p in cached_paths(d):
+        for e in p.events:
+            for ef in effects_of_event(canon, e):
+                root = ef.loc.split('.', 1)[0].split('[', 1)[0]
+                if root not in ('Task', 'self'):
+                    bad = ef
+    (res.ok if bad is None else res.bad)(rule, d, bad.node if bad else None,
+                                         'Task.do_work (the only non-unit sleeper) writes only its own fields',
+                                         'ok' if bad is None else 'do_work writes %s while it can wake anywhere inside a step' % bad.loc)
 
 
 def want_src(w):
